@@ -1,6 +1,7 @@
 import LitexProofs.Namer.GetName
 import LitexProofs.Namer.KeywordFacts
 import LitexProofs.Namer.Fixed
+import LitexProofs.Namer.Conservative
 import LitexProofs.Namer.Tree
 import LitexProofs.Namer.Perm
 import LitexModel.Namer.Tree
@@ -195,6 +196,14 @@ theorem getNameFixed_legal (kw : List String) (base : SigId → String) (reqs : 
     (s : SigId) (a : String) (h : (s, a) ∈ answersFixed kw base reqs) : isIdent a = true := by
   obtain ⟨n, _, rfl⟩ := answersFromF_spec _ reqs s a h
   exact isIdent_suffixed (hb s (answersFromF_mem_reqs _ reqs s _ h)) n
+
+/-- The fix is conservative: outside the defect region (no requested base name is another requested base name
+    plus `_k`; keyword table well formed) the repaired method answers exactly like the current one, so no
+    design free of suffix-shaped names changes its netlist. -/
+theorem getNameFixed_conservative (kw : List String) (hw : kwWellformed kw = true) (base : SigId → String)
+    (reqs : List SigId) (hshape : noSuffixShapedBase (reqs.map base) = true) :
+    answersFixed kw base reqs = answers kw base reqs :=
+  answers_eq_of_sim hw hshape reqs [] _ _ (by simp) Sim.init
 
 /-- Non-vacuity / the former witnesses under the repaired method: `x, x, x_1` → `x, x_1, x_1_1`, and in the
     other request order `x_1, x, x` → `x_1, x, x_2`; `if, if_1` → `if_1, if_1_1`. -/
